@@ -8,3 +8,54 @@ package server
 //@ arith int
 //@ ensures[C05:parsed-shape] err == nil ==> forall k :: 0 <= k && k < len(result) ==> specParsedRangeOK(result[k])
 //@ loop y0 invariant forall k :: 0 <= k && k < len(ranges) ==> specParsedRangeOK(ranges[k])
+
+// C31. Every call of a storage.Storage method on the server's storage with a bucket (and key) is preceded by an
+// authorization that was allowed (the authorize helper returned false = "do not stop"), under an operation name that
+// covers that storage method, for the same bucket (and key). Instantiated for every handler method of *Server.
+//@ methods s *Server matching Handler$ except copyObjectHandler uploadPartCopyHandler
+//@ mode effects
+//@ inline listAndFilterObjects listAndFilterParts listAndFilterMultipartUploads
+//@ effect[C31:object-call-authorized] every s.storage.$M(_, storage.BucketName($b), storage.ObjectKey($k), __)
+//@     needs before s.authorizeRequestWithRequestTags(_, $op, $ab, $ak, _, _, _) -> ($stop)
+//@     where !$stop && specCovers($op, $M) && $ab != nil && *$ab == $b.String() && $ak != nil && *$ak == $k.String()
+//@ effect[C31:bucket-call-authorized] every s.storage.$M(_, storage.BucketName($b), __)
+//@     needs before s.authorizeRequestWithRequestTags(_, $op, $ab, _, _, _, _) -> ($stop)
+//@     where !$stop && specCovers($op, $M) && $ab != nil && *$ab == $b.String()
+//@ effect[C31:list-buckets-authorized] every s.storage.ListBuckets(_)
+//@     needs before s.authorizeRequestWithRequestTags(_, $op, _, _, _, _, _) -> ($stop) where !$stop && specCovers($op, "ListBuckets")
+
+// Server-side copies are authorized for destination AND copy source.
+//@ methods s *Server in copyObjectHandler uploadPartCopyHandler
+//@ mode effects
+//@ effect[C31:copy-authorized-with-source] every s.storage.$M(_, storage.BucketName($sb), storage.ObjectKey($sk), storage.BucketName($db), storage.ObjectKey($dk), __) if $M == "CopyObject" || $M == "UploadPartCopy"
+//@     needs before s.authorizeCopyRequest(_, $op, $asb, $ask, _, $adb, $adk, _, _) -> ($stop)
+//@     where !$stop && specCovers($op, $M) && $asb == $sb.String() && $ask == $sk.String() && $adb == $db.String() && $adk == $dk.String()
+
+// Website endpoint: object data is read only after websitePrepare authorized that very bucket and key for a read.
+//@ methods s *Server in serveWebsiteGetObject serveWebsiteHeadObject
+//@ mode effects
+//@ effect[C31:website-read-authorized] every s.storage.$M(_, storage.BucketName($b), storage.ObjectKey($k), __)
+//@     needs before s.websitePrepare(_, _, _, $op, $pb) -> (_, $pk, _, $ok)
+//@     where $ok && $pb == $b && $pk == $k && specCovers($op, $M)
+//@ effect[C33:website-never-mutates] every s.storage.$M(__) where $M == "GetObject" || $M == "HeadObject" || $M == "GetBucketWebsiteConfiguration"
+
+// websitePrepare reports ok only after the authorizer allowed a request for that operation and bucket.
+//@ func (*Server).websitePrepare
+//@ mode effects
+//@ ensures[C31:website-prepare-ok-means-allowed] ok ==> called(s.requestAuthorizer.AuthorizeRequest) &&
+//@     result_of(s.requestAuthorizer.AuthorizeRequest, 0) && result_of(s.requestAuthorizer.AuthorizeRequest, 1) == nil
+//@ effect[C31:website-authorizes-this-request] every s.requestAuthorizer.AuthorizeRequest(_, $req)
+//@     where $req != nil && $req.Operation == operation && $req.Bucket != nil && *$req.Bucket == bucketName.String()
+//@ effect[C33:website-never-mutates] every s.storage.$M(__) where $M == "GetObject" || $M == "HeadObject" || $M == "GetBucketWebsiteConfiguration"
+
+// The error document is object data too: it may only be returned under an authorization that covers its key.
+//@ func (*Server).serveErrorDocument
+//@ mode effects
+//@ effect[C31:error-document-authorized] every s.storage.GetObject(_, $b, $k, _, _)
+//@     needs before s.requestAuthorizer.AuthorizeRequest(_, $req) -> ($allowed, $err)
+//@     where $allowed && $err == nil && $req != nil && $req.Key != nil && *$req.Key == $k.String()
+//@ effect[C33:website-never-mutates] every s.storage.$M(__) where $M == "GetObject" || $M == "HeadObject" || $M == "GetBucketWebsiteConfiguration"
+
+//@ func (*Server).tryWebsiteDirectoryRedirect
+//@ mode effects
+//@ effect[C33:website-never-mutates] every s.storage.$M(__) where $M == "GetObject" || $M == "HeadObject" || $M == "GetBucketWebsiteConfiguration"
